@@ -185,6 +185,23 @@ class Writer:
         if segment_length <= 0:
             raise FlipJumpWriteFjmException(f"segment-length must be positive (in {segment_addresses_str}).")
 
+        if any(not 0 <= field < (1 << 64) for field in (segment_start, segment_length, data_start, data_length)):
+            raise FlipJumpWriteFjmException(
+                f"segment-start, segment-length, data-start and data-length must be 64bit non-negative numbers "
+                f"(in {segment_addresses_str})."
+            )
+
+        if data_length % 2 == 1:
+            raise FlipJumpWriteFjmException(
+                f"data-length must be even - an integer number of ops (in {segment_addresses_str})."
+            )
+
+        if data_start + data_length > len(self.data):
+            raise FlipJumpWriteFjmException(
+                f"the data range [{data_start}, {data_start + data_length}) exceeds the {len(self.data)} data words "
+                f"added so far (in {segment_addresses_str})."
+            )
+
         if segment_length < data_length:
             raise FlipJumpWriteFjmException(
                 f"segment-length must be at-least data-length " f"(in {segment_addresses_str})."
@@ -209,6 +226,12 @@ class Writer:
         @param data: [in]: a list of words
         @return: the data start index
         """
+        for word in data:
+            if not 0 <= word < (1 << self.word_size):
+                raise FlipJumpWriteFjmException(
+                    f"the data word {word} doesn't fit in {self.word_size} bits (must be in [0, 2^{self.word_size}))."
+                )
+
         data_start = len(self.data)
         self.data += data
         return data_start
